@@ -1,0 +1,31 @@
+// SPDX-FileCopyrightText: 2026 The Pion community <https://pion.ly>
+// SPDX-License-Identifier: MIT
+
+//go:build verif
+
+// Machine-checked contracts for package ipnet (comment-only file; compiled only with -tags verif,
+// and even then it adds no code). Checked by /verif/turnvc against the go/ssa of this package.
+
+package ipnet
+
+//@ spec func isUDP(a net.Addr) bool = typeis(a, *net.UDPAddr)
+//@ spec func isTCP(a net.Addr) bool = typeis(a, *net.TCPAddr)
+//@ spec func ipOf(a net.Addr) net.IP = isUDP(a) ? a.(*net.UDPAddr).IP : a.(*net.TCPAddr).IP
+//@ spec func portOf(a net.Addr) int = isUDP(a) ? a.(*net.UDPAddr).Port : a.(*net.TCPAddr).Port
+//@      // permissions are keyed by the peer's IP only (RFC 5766 s.8), channel bindings by IP and port
+//@ spec func ipKey(a net.Addr) string = (isUDP(a) || isTCP(a)) ? ipStr(ipOf(a)) : ""
+//@ spec func addrEqual(a net.Addr, b net.Addr) bool = ((isUDP(a) && isUDP(b)) || (isTCP(a) && isTCP(b))) && ipStr(ipOf(a)) == ipStr(ipOf(b)) && portOf(a) == portOf(b)
+
+//@ func FingerprintAddr
+//@   pure
+//@   ensures [C01,C02:ip-only] res == ipKey(addr)
+
+//@ func AddrEqual
+//@   pure
+//@   ensures [C02,C08:exact] res == addrEqual(addrA, addrB)
+
+//@ func AddrIPPort
+//@   pure
+//@   ensures [C19:ip-port] (res2 == nil) == (isUDP(a) || isTCP(a))
+//@   ensures [C19:ip-port-val] res2 == nil ==> sameSlice(res0, ipOf(a)) && res1 == portOf(a)
+//@   ensures res2 != nil ==> res2 == errFailedToCastAddr && res0 == nil && res1 == 0
